@@ -553,7 +553,7 @@ func loadShape(repo string, args []string) (string, error) {
 	l := &loadTr{fset: token.NewFileSet()}
 	files := map[string]*ast.File{}
 	for _, p := range []string{"ruleguard/engine.go", "ruleguard/gorule.go", "ruleguard/ir_loader.go", "ruleguard/quasigo/env.go",
-		"ruleguard/quasigo/quasigo.go", "ruleguard/runner.go"} {
+		"ruleguard/quasigo/quasigo.go", "ruleguard/runner.go", "ruleguard/ruleguard.go"} {
 		f, err := parseGo(l.fset, repo+"/"+p)
 		if err != nil {
 			return "", err
@@ -616,6 +616,12 @@ func loadShape(repo string, args []string) (string, error) {
 		{"ruleguard/quasigo/quasigo.go", "Env", "GetFunc", "gen_env_GetFunc", 0, 0},
 		{"ruleguard/quasigo/quasigo.go", "Env", "GetEvalEnv", "gen_env_GetEvalEnv", 0, 0},
 		{"ruleguard/quasigo/quasigo.go", "Env", "UpdateEvalEnv", "gen_env_UpdateEvalEnv", 0, 0},
+		// the exported methods: the engine the theorems are about is the engine the API exposes (no state of their own)
+		{"ruleguard/ruleguard.go", "Engine", "Load", "gen_api_Load", 0, 0},
+		{"ruleguard/ruleguard.go", "Engine", "LoadFromIR", "gen_api_LoadFromIR", 0, 0},
+		{"ruleguard/ruleguard.go", "Engine", "LoadedGroups", "gen_api_LoadedGroups", 0, 0},
+		{"ruleguard/ruleguard.go", "Engine", "Run", "gen_api_Run", 0, 0},
+		{"ruleguard/ruleguard.go", "", "NewEngine", "gen_api_NewEngine", 0, 0},
 	}
 	for _, p := range pinned {
 		fd := findFunc(files[p.file], p.recv, p.name)
@@ -650,6 +656,7 @@ func loadShape(repo string, args []string) (string, error) {
 		{"ruleguard/engine.go", "engine"}, {"ruleguard/engine.go", "engineState"},
 		{"ruleguard/gorule.go", "goRuleSet"}, {"ruleguard/gorule.go", "scopedGoRuleSet"},
 		{"ruleguard/quasigo/quasigo.go", "Env"}, {"ruleguard/quasigo/quasigo.go", "EvalEnv"},
+		{"ruleguard/ruleguard.go", "Engine"},
 	}
 	for _, s := range structs {
 		fs, err := l.structFields(files[s.file], s.name)
